@@ -1229,9 +1229,20 @@ impl Expr {
                 format!("{} {} {}", left.output_name(), op, right.output_name())
             }
             Expr::UnaryExpr { op, expr } => format!("{} {}", op, expr.output_name()),
-            Expr::Aggregate { func, args, .. } => {
+            Expr::Aggregate {
+                func,
+                args,
+                distinct,
+            } => {
+                // SUM(DISTINCT v) and SUM(v) are different columns of one
+                // aggregate node and are looked up by this name.
                 let arg_names: Vec<_> = args.iter().map(|a| a.output_name()).collect();
-                format!("{}({})", func, arg_names.join(", "))
+                format!(
+                    "{}({}{})",
+                    func,
+                    if *distinct { "DISTINCT " } else { "" },
+                    arg_names.join(", ")
+                )
             }
             Expr::ScalarFunc { func, args } => {
                 let arg_names: Vec<_> = args.iter().map(|a| a.output_name()).collect();
